@@ -233,7 +233,14 @@ def _composite(rng, k, m, n, depth, o):
     if k == "Product":
         nf = int(rng.integers(2, 4))
         dims = [m] + [int(rng.integers(1, o.max_dim + 1)) for _ in range(nf - 1)] + [n]
-        return {"k": "Product", "via": via, "args": [gen_tree(rng, d, o, (dims[i], dims[i + 1])) for i in range(nf)]}
+        args = [gen_tree(rng, d, o, (dims[i], dims[i + 1])) for i in range(nf)]
+        if via == "fn":
+            # open finding (C01, Product/identity_factor): A @ I drops the Identity, so an Identity *wider* than every
+            # other factor does not contribute to the dtype; the clean workload keeps Identity factors narrow
+            for a in args:
+                if a["k"] == "Identity":
+                    a["dt"] = "f4"
+        return {"k": "Product", "via": via, "args": args}
     if k == "Sum":
         nf = int(rng.integers(2, 4))
         return {"k": "Sum", "via": via, "args": [gen_tree(rng, d, o, (m, n)) for _ in range(nf)]}
